@@ -218,6 +218,26 @@ def check_layout(hv, L, labels):
         require(abs(a / total - wj) <= 1e-6, f"bounded_voronoi polygon of sensor {j} has area share {a / total!r}, expected {wj!r}")
         hullp = _hull(poly)
         require(_signed_dist_inside(hullp, (0.0, 0.0)) > -1e-9 * size, f"bounded_voronoi polygon of sensor {j} does not contain the sensor")
+    # one object used repeatedly (the documented workflow calls spatial_weights and bounded_voronoi on the same object):
+    # the answer must follow the arguments and attributes of *this* call
+    obj = hv.HvsrSpatial(coords)
+    bnd = np.array(boundary, dtype=float)
+    w_a, i_a = sut(obj.spatial_weights, bnd, what="spatial_weights (first call on an object)")
+    sut(obj.bounded_voronoi, bnd, what="bounded_voronoi (same object)")
+    require(list(i_a) == list(idx_ref) and np.array_equal(np.asarray(w_a), w), "the same call on a new object gives different weights")
+    factor = 0.8 if L["k"] < 0 else 1.2
+    cen_b = bnd.mean(axis=0)
+    edited = (bnd - cen_b) * factor + cen_b
+    w2_ref, idx2_ref, _, margin2, _, _ = ref_weights(coords, edited)
+    if margin2 >= 1e-6 * E and len(idx2_ref) >= 4 and 1e6 * math.sin(amin / 2.0) >= 5.0 * rb * max(factor, 1.0) and (factor < 1 or len(idx2_ref) == len(idx_ref)):
+        bnd -= cen_b
+        bnd *= factor                   # the caller resizes its boundary array in place and asks again
+        bnd += cen_b
+        w_b, i_b = sut(obj.spatial_weights, bnd, what="spatial_weights (second call on an object)")
+        if list(i_b) != list(idx2_ref) or not np.all(np.abs(np.asarray(w_b) - w2_ref) <= 1e-6):
+            raise Violation(f"a second spatial_weights call on the same object, after the boundary array was resized in place (x{factor}), returns sensors {list(i_b)} with weights "
+                            f"{np.round(np.asarray(w_b), 6).tolist()}; the nearest-sensor shares of the new region are {idx2_ref} / {np.round(w2_ref, 6).tolist()}")
+        labels.append("object-reused-after-boundary-edit")
     # permutation / translation / scaling
     g = np.random.Generator(np.random.PCG64(L["perm_seed"]))
     p = g.permutation(len(coords))
